@@ -45,6 +45,7 @@ type c06Gen struct {
 	recvSeq map[string]uint64 // next fresh sequence per source chain
 	commits map[string][]uint64
 	ackSeq  map[string]uint64
+	kind    int    // data kind forced for the next receives (0 = random)
 	pf      string // " pf=<hex>" appended to the next recv / ack for a chain other than S ("" = none)
 	forceRl *string
 }
@@ -378,15 +379,28 @@ func c06B(b bool) string {
 
 func (g *c06Gen) genRecv(raw, canon, src string, valid bool) string {
 	dst := c06T
+	if src == c06T { // only acceptable with a client for the chain's own name: relay / destination-not-found branches
+		dst = []string{"nocl", "no-client-2", "tss-a", "tss-b", c06S}[g.r.Rng.Intn(5)]
+	}
+	if src == c06T && g.recvSeq[src] == 0 {
+		// relayed packets of this chain get sequences of their own: a relay receive OVERWRITES an existing commitment
+		// of the same triple (mkcommit / acks use 1, 2, …), which the model (commitments as a set) does not describe
+		g.recvSeq[src] = 500
+	}
 	seq := g.recvSeq[src] + 1
-	hasData := true
+	kind := 1 + g.r.Rng.Intn(c06Kinds-1) // every outcome class of the receive callback
+	if g.kind > 0 {
+		kind = g.kind
+	}
 	proofOK := true
 	if !valid {
 		switch g.r.Rng.Intn(12) {
 		case 0:
 			dst = g.pick(c06Chains)
 		case 1:
-			if seq > 1 {
+			if src == c06T && seq > 501 {
+				seq = 501 + uint64(g.r.Rng.Intn(int(seq-501)))
+			} else if src != c06T && seq > 1 {
 				seq = 1 + uint64(g.r.Rng.Intn(int(seq-1))) // already received
 			}
 		case 2:
@@ -394,22 +408,99 @@ func (g *c06Gen) genRecv(raw, canon, src string, valid bool) string {
 		case 3:
 			seq = 18446744073709551615
 		case 4:
-			hasData = false
+			kind = 0
 		case 5, 6:
 			proofOK = false
 		}
 	}
-	if src == c06S && (seq == 0 || seq > c06Pool || dst != c06T || !hasData) {
-		proofOK = false
+	if src == c06S {
+		if valid || g.r.Rng.Intn(4) > 0 {
+			kind = c06PoolKind(seq) // the packet S committed
+		}
+		if seq == 0 || seq > c06Pool || dst != c06T || kind != c06PoolKind(seq) {
+			proofOK = false
+		}
 	}
 	if src != c06S && g.r.Rng.Intn(2) == 0 {
 		proofOK = !proofOK // ignored for TSS / absent clients
 	}
-	out := g.run(fmt.Sprintf("recv %s %s %s %s %d %s %s", hxs(raw), hxs(canon), hxs(src), hxs(dst), seq, c06B(hasData), c06B(proofOK)) + g.proofField(src, raw))
+	out := g.run(fmt.Sprintf("recv %s %s %s %s %d %d %s ?", hxs(raw), hxs(canon), hxs(src), hxs(dst), seq, kind, c06B(proofOK)) + g.proofField(src, raw))
 	if strings.HasPrefix(out, "ok") && seq == g.recvSeq[src]+1 {
 		g.recvSeq[src] = seq
 	}
 	return out
+}
+
+// a re-registration that keeps the ADDRESS LIST and changes / swaps the CHAIN LIST (same length): the relayer
+// must lose the dropped chains and gain the new ones, and each address now belongs to the chain at its position
+func (g *c06Gen) genSameAddrsRereg() {
+	r := g.r
+	pool := []string{c06S, "nocl"}
+	for _, c := range c06TssChains {
+		if _, ok := g.tss[c]; ok {
+			pool = append(pool, c)
+		}
+	}
+	pool = append(pool, "tss-b", "Tss-A")
+	perm := r.Rng.Perm(len(pool))
+	k := 1 + r.Rng.Intn(3)
+	var chains []string
+	for _, i := range perm[:k] {
+		chains = append(chains, pool[i])
+	}
+	distinct := []string{"0xAbCdEf0000000000000000000000000000000001", "0xabcdef0000000000000000000000000000000002", "relayer-X", "0xfee0000000000000000000000000000000000003"}
+	ap := r.Rng.Perm(len(distinct))
+	var addrs []string
+	for i := range chains {
+		addrs = append(addrs, distinct[ap[i]])
+	}
+	a := c06Accts[r.Rng.Intn(c06NAcct-1)]
+	raw, canon := a.lower, a.lower
+	for _, c := range chains {
+		if t, ok := g.tss[c]; ok && r.Rng.Intn(2) == 0 {
+			raw, canon = t, strings.ToLower(t)
+			break
+		}
+	}
+	regOp := func(cs []string) {
+		parts := []string{"reg", "1", hxs(raw), fmt.Sprint(len(cs))}
+		for _, c := range cs {
+			parts = append(parts, hxs(c))
+		}
+		parts = append(parts, fmt.Sprint(len(addrs)))
+		for _, c := range addrs {
+			parts = append(parts, hxs(c))
+		}
+		g.run(strings.Join(parts, " "))
+	}
+	probe := func(cs []string) {
+		for i, c := range cs {
+			g.run(fmt.Sprintf("q %s %s %s", hxs(c), hxs(raw), hxs(strings.ToUpper(addrs[i%len(addrs)]))))
+			g.genUpd(raw, canon, c, true)
+			g.genRecv(raw, canon, c, true)
+		}
+	}
+	regOp(chains)
+	probe(chains)
+	// new chain list of the same length: swapped order, or some chains replaced
+	next := append([]string{}, chains...)
+	if k > 1 && r.Rng.Intn(2) == 0 {
+		next[0], next[k-1] = next[k-1], next[0]
+	} else {
+		for i := range next {
+			if r.Rng.Intn(2) == 0 || k == 1 {
+				for _, j := range r.Rng.Perm(len(pool)) {
+					if !c06Contains(chains, pool[j]) && !c06Contains(next, pool[j]) {
+						next[i] = pool[j]
+						break
+					}
+				}
+			}
+		}
+	}
+	regOp(next)
+	probe(chains) // the dropped chains must be gone, the kept ones answer with the address at their NEW position
+	probe(next)
 }
 
 func (g *c06Gen) genAck(raw, canon, dst string, valid bool) string {
@@ -502,6 +593,13 @@ func (g *c06Gen) history(steps int, sweep bool) {
 			g.run("mkclient " + hxs(c) + " tss " + hxs(addr))
 		}
 	}
+	// a client under the chain's OWN name (only creatable below governance: the proposal handler refuses it)
+	selfClient := r.Rng.Intn(4) == 0
+	if selfClient {
+		a := c06Accts[r.Rng.Intn(c06NAcct)]
+		g.tss[c06T] = a.lower
+		g.run("mkclient " + hxs(c06T) + " tss " + hxs(a.lower))
+	}
 	n := 1 + r.Rng.Intn(6)
 	for i := 0; i < n; i++ {
 		g.genReg(g.pick(c06Chains))
@@ -515,7 +613,22 @@ func (g *c06Gen) history(steps int, sweep bool) {
 	if r.Rng.Intn(2) == 0 {
 		g.genCaseSiblings()
 	}
+	if r.Rng.Intn(2) == 0 {
+		g.genSameAddrsRereg()
+	}
+	if selfClient {
+		// receives of packets whose source is this chain: destination without client (error ack "dstChain not
+		// found") or with client (relay, no ack) — from the TSS account of the own-name client, registered for it
+		t := g.tss[c06T]
+		g.run(fmt.Sprintf("reg 1 %s 2 %s %s 2 %s %s", hxs(t), hxs("nocl"), hxs(c06T), hxs("wrong-chain-address"), hxs("own-name-address")))
+		for i := 0; i < 4; i++ {
+			g.genRecv(t, strings.ToLower(t), c06T, true)
+		}
+	}
 	for i := 0; i < steps; i++ {
+		if r.Rng.Intn(50) == 0 {
+			g.genSameAddrsRereg()
+		}
 		if r.Rng.Intn(50) == 0 {
 			g.genCaseSiblings()
 		}
